@@ -91,6 +91,11 @@ def gen_config(rng, alpha_kinds=("fixed", "single"), allow_fail=True):
                 late_data[a] = entry[a] // 1440                 # data start on the entry day
         if not any(e == 0 or (0 < e) for e in entry.values()):
             entry[assets[0]] = 0
+        members = [a for a in assets if entry[a] != -1 and entry[a] <= end]
+        if len(members) == 3:
+            # three equal weights are 1/3 each: not on the dyadic grid (a float floor may fall one short exactly
+            # where the exact quotient is whole - the Sizer engine's boundary relation covers that, not this engine)
+            entry[rng.choice(members)] = rng.choice([-1, end + 1440])
     cfg["entry"] = entry
     # market
     market = {}
